@@ -465,6 +465,15 @@ func (s *SplitExp) BindingPath(bindPath string,
 		}
 	}
 	src := s.Source
+	if m, ok := s.Value.(*MergeExp); ok && m.GetCall() != s.Call {
+		if j := fork[m.GetCall()]; j != nil && j.IndexSource() == nil {
+			// This call is split over the merged output of another mapped
+			// call and so iterates in lockstep with it.  The index for
+			// that call is already fixed: the value is that element.
+			v, err := m.Value.BindingPath(bindPath, fork, lookup)
+			return v, s.wrapError(err)
+		}
+	}
 	v, err := s.Value.BindingPath(bindPath, fork, lookup)
 	if err != nil {
 		return s, s.wrapError(err)
